@@ -9,6 +9,7 @@ import Mashu.Args
 import Mashu.Resolve
 import Mashu.Quote
 import Mashu.Discr
+import Mashu.DiscrF
 import Mashu.Cache
 import Mashu.Lazy
 import Mashu.Share
@@ -174,6 +175,24 @@ def dispatchDiscr (op : String) (j : Json) : Except String Json := do
             pure (Discr.Event.decode (← nat a[0]!) (← optStr a[1]!)))
       pure (Json.mkObj [("impl", Json.arr ((Discr.run sup {} evs).map ofO).toArray),
                         ("spec", Json.arr ((Discr.runSpec sup [] evs).map ofO).toArray)])
+  | "discrf" => do
+      let evs ← (← arr (j.getObjValD "events")).toList.mapM (fun e => do
+        match e.getObjVal? "d" with
+        | .ok c => do pure (DiscrF.Event.define (← toCls c))
+        | .error _ => do
+            let a ← arr (e.getObjValD "q")
+            pure (DiscrF.Event.decode (← nat a[0]!) (← nat a[1]!) (← optStr a[2]!)))
+      let shared := getB j "shared" (!Generated.subtypeRegistryPerFormat)
+      let ofF (o : DiscrF.Outcome) : Json := match o with
+        | .inst c b => Json.str s!"inst:{c}:{b}"
+        | .missingDiscriminator => Json.str "missing"
+        | .noVariant => Json.str "novariant"
+      -- the state after every event: which classes have a method of their own per format
+      let states := (List.range (evs.length + 1)).map (fun k => DiscrF.exec shared sup {} (evs.take k))
+      let comp (st : DiscrF.State) : Json :=
+        Json.arr ((st.compiled.map (fun e => Json.arr #[Json.num (JsonNumber.fromNat e.1), Json.num (JsonNumber.fromNat e.2)])).toArray)
+      pure (Json.mkObj [("outs", Json.arr ((DiscrF.run shared sup {} evs).map ofF).toArray),
+                        ("compiled", Json.arr ((states.drop 1).map comp).toArray)])
   | _ => do
       let cs ← (← arr (j.getObjValD "classes")).toList.mapM toCls
       let acc ← (← arr (j.getObjValD "accepts")).toList.mapM nat
@@ -434,7 +453,7 @@ def dispatch (j : Json) : Except String Json := do
   | "args" => dispatchArgs j
   | "resolve" => dispatchResolve j
   | "pyrepr" | "pylex" => dispatchQuote op j
-  | "discr" | "discrnf" => dispatchDiscr op j
+  | "discr" | "discrnf" | "discrf" => dispatchDiscr op j
   | "cache" | "merge" => dispatchCache op j
   | "lazy" => dispatchLazy j
   | "share" => dispatchShare j
